@@ -399,6 +399,13 @@ func (s *Store) lookupSecretInternal(ctx context.Context, name string) (Secret, 
 
 			s.active.Lock()
 			defer s.active.Unlock()
+			if cs := s.active.m[name]; cs != nil {
+				// Another lookup installed this secret after our caller found
+				// it missing. Keep that entry: replacing it here would change
+				// the value without waking its watchers, and the next poll
+				// will bring it up to date anyway.
+				return s.secretLocked(name), nil
+			}
 			s.active.m[name] = &cachedSecret{Secret: sv, LastAccess: s.timeNow().Unix()}
 			if err := s.flushCacheLocked(); err != nil {
 				s.logf("WARNING: error flushing cache: %v", err)
